@@ -62,6 +62,22 @@ Proof.
   replace (Nat.max (S (N.to_nat (N.log2 c / 4))) 4) with 4%nat by lia. reflexivity.
 Qed.
 
+(** ** surrogate pairs *)
+Lemma surr_hi_eq c : surr_hi c = 55296 + (c - 65536) / 1024.
+Proof. unfold surr_hi. rewrite N.shiftr_div_pow2. reflexivity. Qed.
+
+Lemma surr_lo_eq c : surr_lo c = 56320 + (c - 65536) mod 1024.
+Proof. unfold surr_lo. change 1023 with (N.ones 10). rewrite N.land_ones. reflexivity. Qed.
+
+Lemma surr_bounds c : 65536 <= c < 1114112 -> 55296 <= surr_hi c < 56320 /\ 56320 <= surr_lo c < 57344.
+Proof. intro H. rewrite surr_hi_eq, surr_lo_eq. lia. Qed.
+
+Lemma utf16_char_small c : c < 65536 -> utf16_char c = [c].
+Proof. intro H. unfold utf16_char. replace (c <? 65536) with true by lia. reflexivity. Qed.
+
+Lemma utf16_char_astral c : 65536 <= c -> utf16_char c = [surr_hi c; surr_lo c].
+Proof. intro H. unfold utf16_char. replace (c <? 65536) with false by lia. rewrite surr_hi_eq, surr_lo_eq. reflexivity. Qed.
+
 (** ** 1. generated = hand model *)
 Lemma below_128_cases (P : N -> bool) : forallb P (map N.of_nat (seq 0 128)) = true -> forall c, c < 128 -> P c = true.
 Proof.
@@ -77,7 +93,8 @@ Lemma generated_escape_str_char b c : C31.GenId.escape_str_char b c = esc_str_ch
 Proof.
   destruct (c <? 128) eqn:E.
   - apply name_eqb_spec. apply (below_128_cases _ (generated_escape_str_char_ascii b)). lia.
-  - unfold C31.GenId.escape_str_char, esc_str_char. replace (127 <? c) with true by lia. reflexivity.
+  - unfold C31.GenId.escape_str_char, esc_str_char. replace (127 <? c) with true by lia.
+    destruct (65535 <? c); reflexivity.
 Qed.
 
 Lemma generated_escape_str b s : C31.GenId.escape_str b s = esc_str b s.
@@ -96,48 +113,36 @@ Proof.
   apply map_ext. intro s. rewrite generated_escape_str. reflexivity.
 Qed.
 
-(** the pattern of escape_id, as it is in the source now, with its entry point, accepts exactly [is_bare] *)
-Lemma head_set c :
-  set_mem false [(95, 95); (97, 122); (65, 90)] c = ((65 <=? c) && (c <=? 90)) || (c =? 95) || ((97 <=? c) && (c <=? 122)).
-Proof. unfold set_mem. rewrite xorb_false_l. unfold in_ranges. cbn [existsb fst snd]. lia. Qed.
+(** the pattern of escape_id, as it is in the source now, with its entry point, accepts exactly [is_bare_ascii] *)
+Lemma head_set c : set_mem false [(95, 95); (97, 122); (65, 90)] c = id_start c.
+Proof. unfold set_mem, id_start. rewrite xorb_false_l. unfold in_ranges. cbn [existsb fst snd]. lia. Qed.
 
-Lemma hi_ranges_low hi c : word_hi_ok hi = true -> c < 128 -> in_ranges c hi = false.
-Proof.
-  unfold word_hi_ok, in_ranges. induction hi as [|r hi IH]; cbn [forallb existsb]; intros H Hc; [reflexivity|].
-  apply andb_true_iff in H as [Hr H]. rewrite (IH H Hc). lia.
-Qed.
-
-Lemma tail_set hi c : word_hi_ok hi = true ->
-  set_mem false (py_word_ranges hi) c = is_word (fun x => in_ranges x hi) c || (c =? 95).
-Proof.
-  intro Hhi. unfold set_mem, py_word_ranges. rewrite xorb_false_l. unfold in_ranges at 1. rewrite existsb_app. fold (in_ranges c hi).
-  cbn [existsb fst snd]. unfold is_word. destruct (c <? 128) eqn:E.
-  - rewrite (hi_ranges_low hi c Hhi) by lia. lia.
-  - destruct (in_ranges c hi); lia.
-Qed.
+Lemma tail_set c : set_mem false [(95, 95); (97, 122); (65, 90); (48, 57)] c = id_part c.
+Proof. unfold set_mem, id_part, id_start. rewrite xorb_false_l. unfold in_ranges. cbn [existsb fst snd]. lia. Qed.
 
 Lemma concat_singletons (r : name) : concat (map (fun x => [x]) r) = r.
 Proof. induction r as [|x r IH]; [reflexivity|]. cbn [map concat app]. rewrite IH. reflexivity. Qed.
 
-Lemma generated_regex_iff hi s : word_hi_ok hi = true ->
-  py_accepts C31.GenId.escape_id_mode (C31.GenId.escape_id_regex hi) s <-> is_bare (fun x => in_ranges x hi) s = true.
+Lemma generated_regex_iff hi s :
+  py_accepts C31.GenId.escape_id_mode (C31.GenId.escape_id_regex hi) s <-> is_bare_ascii s = true.
 Proof.
-  intro Hhi. unfold C31.GenId.escape_id_mode, C31.GenId.escape_id_regex, py_accepts.
-  set (tailre := RSet false (py_word_ranges hi)).
-  set (P := fun w : list N => exists c, w = [c] /\ set_mem false (py_word_ranges hi) c = true).
+  unfold C31.GenId.escape_id_mode, C31.GenId.escape_id_regex, py_accepts.
+  set (rs := [(95, 95); (97, 122); (65, 90); (48, 57)]).
+  set (tailre := RSet false rs).
+  set (P := fun w : list N => exists c, w = [c] /\ set_mem false rs c = true).
   assert (HP : forall pre w post, M tailre pre w post <-> P w) by (intros; apply M_set_iff).
   split.
   - intro H. apply M_seq_iff in H as (w1 & w2 & -> & H1 & H2).
     apply M_set_iff in H1 as (c & -> & Hc). apply (M_star_concat tailre P HP) in H2 as (ws & -> & Hws).
-    cbn [app is_bare]. rewrite <- head_set, Hc. cbn [andb].
+    cbn [app is_bare_ascii]. rewrite <- head_set, Hc. cbn [andb].
     induction Hws as [|w ws (d & -> & Hd) _ IH]; [reflexivity|].
-    cbn [concat app forallb]. rewrite <- tail_set by exact Hhi. rewrite Hd. exact IH.
-  - intro H. destruct s as [|c r]; [discriminate|]. cbn [is_bare] in H. apply andb_true_iff in H as [Hc Hr].
+    cbn [concat app forallb]. rewrite <- tail_set. fold rs. rewrite Hd. exact IH.
+  - intro H. destruct s as [|c r]; [discriminate|]. cbn [is_bare_ascii] in H. apply andb_true_iff in H as [Hc Hr].
     apply M_seq_iff. exists [c], r. split; [reflexivity|]. split.
     + apply M_set_iff. exists c. split; [reflexivity|]. rewrite head_set. exact Hc.
     + apply (M_star_concat tailre P HP). exists (map (fun x => [x]) r). split; [symmetry; apply concat_singletons|].
       induction r as [|d r IH]; [constructor|]. cbn [forallb] in Hr. apply andb_true_iff in Hr as [Hd Hr].
-      cbn [map]. constructor; [|apply IH; exact Hr]. exists d. split; [reflexivity|]. rewrite tail_set by exact Hhi. exact Hd.
+      cbn [map]. constructor; [|apply IH; exact Hr]. exists d. split; [reflexivity|]. subst rs. rewrite tail_set. exact Hd.
 Qed.
 
 (** ** 2. the engine's lexer on the emitted text *)
@@ -154,25 +159,32 @@ Proof.
   apply (H (length s)). lia.
 Qed.
 
-(** what escape_str writes for one BMP character, by shape *)
+Definition u4 (v : N) : name := 92 :: 117 :: hex_fixed_up 4 v.
+
+(** what escape_str writes for one code point, by shape *)
 Inductive esc_out (b : bool) (c : N) : name -> Prop :=
 | eo_pair d :
     In (d, c) [(92, 92); (98, 8); (116, 9); (110, 10); (102, 12); (114, 13)] \/ (d = 34 /\ c = 34 /\ b = false)
     \/ (d = 96 /\ c = 96 /\ b = true) -> esc_out b c [92; d]
 | eo_raw : c <> 92 -> c <> delim_of b -> c < 65536 -> esc_out b c [c]
-| eo_u : c < 65536 -> esc_out b c (92 :: 117 :: hex_fixed_up 4 c).
+| eo_u : c < 65536 -> esc_out b c (u4 c)
+| eo_astral : 65536 <= c < 1114112 -> esc_out b c (u4 (surr_hi c) ++ u4 (surr_lo c)).
 
-Lemma esc_out_spec b c : c < 65536 -> esc_out b c (esc_str_char b c).
+Lemma esc_out_spec b c : c < 1114112 -> esc_out b c (esc_str_char b c).
 Proof.
   intro Hc. unfold esc_str_char.
-  destruct (127 <? c) eqn:E1. { rewrite upper_hex_4 by exact Hc. apply eo_u; exact Hc. }
+  destruct (65535 <? c) eqn:E0.
+  { assert (Hr : 65536 <= c < 1114112) by lia. destruct (surr_bounds c Hr) as [Hh Hl].
+    rewrite !upper_hex_4 by lia. apply eo_astral. exact Hr. }
+  assert (Hc' : c < 65536) by lia.
+  destruct (127 <? c) eqn:E1. { rewrite upper_hex_4 by exact Hc'. apply eo_u; exact Hc'. }
   destruct (c <? 32) eqn:E2.
   { destruct (c =? 8) eqn:E8. { apply N.eqb_eq in E8; subst. apply eo_pair. left. cbn. tauto. }
     destruct (c =? 10) eqn:E10. { apply N.eqb_eq in E10; subst. apply eo_pair. left. cbn. tauto. }
     destruct (c =? 9) eqn:E9. { apply N.eqb_eq in E9; subst. apply eo_pair. left. cbn. tauto. }
     destruct (c =? 12) eqn:E12. { apply N.eqb_eq in E12; subst. apply eo_pair. left. cbn. tauto. }
     destruct (c =? 13) eqn:E13. { apply N.eqb_eq in E13; subst. apply eo_pair. left. cbn. tauto. }
-    apply eo_u; exact Hc. }
+    apply eo_u; exact Hc'. }
   destruct (c =? 34) eqn:E34.
   { apply N.eqb_eq in E34; subst. destruct b; [apply eo_raw; cbn; lia|apply eo_pair; right; left; auto]. }
   destruct (c =? 96) eqn:E96.
@@ -201,147 +213,232 @@ Proof. destruct b; cbn; lia. Qed.
 Lemma hex_up_plain b k c : Forall (fun x => x <> delim_of b /\ x <> 92) (hex_fixed_up k c).
 Proof. eapply Forall_impl; [|apply hex_fixed_up_range]. cbn beta. intros a Ha. destruct b; cbn [delim_of]; lia. Qed.
 
-Lemma quoted_raw_d_char b c (X : name) : c < 65536 ->
+Lemma quoted_raw_d_u4 b v (X : name) :
+  quoted_raw_d (delim_of b) (u4 v ++ X)
+  = match quoted_raw_d (delim_of b) X with Some (bd, r) => Some (u4 v ++ bd, r) | None => None end.
+Proof.
+  unfold u4. cbn [app]. rewrite quoted_raw_d_pair by (apply delim_of_not_bs || reflexivity).
+  rewrite (quoted_raw_d_plain _ _ X (hex_up_plain b 4 v)). destruct (quoted_raw_d (delim_of b) X) as [[bd r]|]; reflexivity.
+Qed.
+
+Lemma quoted_raw_d_char b c (X : name) : c < 1114112 ->
   quoted_raw_d (delim_of b) (esc_str_char b c ++ X)
   = match quoted_raw_d (delim_of b) X with Some (bd, r) => Some (esc_str_char b c ++ bd, r) | None => None end.
 Proof.
-  intro Hc. destruct (esc_out_spec b c Hc) as [d Hd|H1 H2 H3|H].
+  intro Hc. destruct (esc_out_spec b c Hc) as [d Hd|H1 H2 H3|H|H].
   - cbn [app]. apply quoted_raw_d_pair; [apply delim_of_not_bs|].
     destruct Hd as [Hd|[(-> & _)|(-> & _)]]; [|reflexivity|reflexivity].
     cbn [In] in Hd. repeat (destruct Hd as [Hd|Hd]; [injection Hd as <- _; reflexivity|]). contradiction.
   - apply (quoted_raw_d_plain (delim_of b) [c]). constructor; [split; assumption|constructor].
-  - cbn [app]. rewrite quoted_raw_d_pair by (apply delim_of_not_bs || reflexivity).
-    rewrite (quoted_raw_d_plain _ _ X (hex_up_plain b 4 c)). destruct (quoted_raw_d (delim_of b) X) as [[bd r]|]; reflexivity.
+  - apply quoted_raw_d_u4.
+  - rewrite <- app_assoc, quoted_raw_d_u4, quoted_raw_d_u4.
+    destruct (quoted_raw_d (delim_of b) X) as [[bd r]|]; [rewrite app_assoc|]; reflexivity.
 Qed.
 
+Definition below_max (n : name) : bool := forallb (fun c => c <? 1114112) n.
 Definition bmp (n : name) : bool := forallb (fun c => c <? 65536) n.
 
-Lemma quoted_raw_d_escaped b (n : name) (rest : name) : bmp n = true ->
+Lemma scalar_below_max n : scalar_name n = true -> below_max n = true.
+Proof.
+  unfold scalar_name, below_max. intro H. rewrite forallb_forall in *. intros c Hc. specialize (H c Hc).
+  unfold is_scalar in H. lia.
+Qed.
+
+Lemma quoted_raw_d_escaped b (n : name) (rest : name) : below_max n = true ->
   quoted_raw_d (delim_of b) (esc_str b n ++ delim_of b :: rest) = Some (esc_str b n, rest).
 Proof.
-  unfold bmp, esc_str. induction n as [|c n IH]; cbn [forallb flat_map app]; intro H.
+  unfold below_max, esc_str. induction n as [|c n IH]; cbn [forallb flat_map app]; intro H.
   - cbn [quoted_raw_d]. rewrite N.eqb_refl. reflexivity.
   - apply andb_true_iff in H as [Hc Hn]. rewrite <- app_assoc, quoted_raw_d_char, (IH Hn) by lia. reflexivity.
 Qed.
 
-Lemma quoted_raw_escaped_id (n rest : name) : bmp n = true ->
+Lemma quoted_raw_escaped_id (n rest : name) : below_max n = true ->
   quoted_raw (esc_str true n ++ 96 :: rest) = Some (esc_str true n, rest).
 Proof. intro H. rewrite <- quoted_raw_d_96. exact (quoted_raw_d_escaped true n rest H). Qed.
 
-Lemma quoted_raw_escaped_str (n rest : name) : bmp n = true ->
+Lemma quoted_raw_escaped_str (n rest : name) : below_max n = true ->
   quoted_raw_d 34 (esc_str false n ++ 34 :: rest) = Some (esc_str false n, rest).
 Proof. intro H. exact (quoted_raw_d_escaped false n rest H). Qed.
 
-Lemma unescape_string_id_char b f c (X : name) : c < 65536 ->
-  unescape_string (S f) (esc_str_char b c ++ X) = option_map (cons c) (unescape_string f X).
+Lemma unescape_u4 f v (X : name) : v < 65536 ->
+  unescape_string (S f) (u4 v ++ X) = option_map (cons v) (unescape_string f X).
+Proof. intro H. unfold u4. cbn [app unescape_string N.eqb Pos.eqb]. rewrite take_hex_fixed_up by (cbn; lia). reflexivity. Qed.
+
+(** unescapeString turns the text written for one code point into its UTF-16 code units *)
+Lemma unescape_string_id_char b f c (X : name) : c < 1114112 ->
+  unescape_string (length (utf16_char c) + f) (esc_str_char b c ++ X)
+  = option_map (app (utf16_char c)) (unescape_string f X).
 Proof.
-  intro Hc. destruct (esc_out_spec b c Hc) as [d Hd|H1 H2 H3|H].
-  - destruct Hd as [Hd|[(-> & -> & _)|(-> & -> & _)]]; [|reflexivity|reflexivity].
-    cbn [In] in Hd. repeat (destruct Hd as [Hd|Hd]; [injection Hd as <- <-; reflexivity|]). contradiction.
-  - cbn [app unescape_string]. destruct (c =? 92) eqn:E; [lia|]. reflexivity.
-  - cbn [app unescape_string N.eqb Pos.eqb]. rewrite take_hex_fixed_up by (cbn; lia). reflexivity.
+  intro Hc. destruct (esc_out_spec b c Hc) as [d Hd|H1 H2 H3|H|H].
+  - destruct Hd as [Hd|[(-> & -> & _)|(-> & -> & _)]];
+      [|cbn; destruct (unescape_string f X); reflexivity|cbn; destruct (unescape_string f X); reflexivity].
+    cbn [In] in Hd.
+    repeat (destruct Hd as [Hd|Hd]; [injection Hd as <- <-; cbn; destruct (unescape_string f X); reflexivity|]). contradiction.
+  - rewrite utf16_char_small by exact H3. cbn [length Nat.add app unescape_string].
+    destruct (c =? 92) eqn:E; [lia|]. destruct (unescape_string f X); reflexivity.
+  - rewrite utf16_char_small by exact H. cbn [length Nat.add]. rewrite unescape_u4 by exact H.
+    destruct (unescape_string f X); reflexivity.
+  - destruct (surr_bounds c H) as [Hh Hl]. rewrite utf16_char_astral by lia. cbn [length Nat.add].
+    rewrite <- app_assoc, unescape_u4, unescape_u4 by lia. destruct (unescape_string f X); reflexivity.
 Qed.
 
-Lemma esc_str_char_nonempty b c : c < 65536 -> (1 <= length (esc_str_char b c))%nat.
-Proof. intro Hc. destruct (esc_out_spec b c Hc); cbn [length]; lia. Qed.
-
-Lemma unescape_string_esc b (n : name) : bmp n = true ->
-  forall f, (length (esc_str b n) < f)%nat -> unescape_string f (esc_str b n) = Some n.
+Lemma esc_str_char_length b c : c < 1114112 -> (length (utf16_char c) <= length (esc_str_char b c))%nat.
 Proof.
-  unfold bmp, esc_str. induction n as [|c n IH]; cbn [forallb flat_map]; intros Hn f Hf.
+  intro Hc. destruct (esc_out_spec b c Hc) as [d Hd|H1 H2 H3|H|H].
+  - assert (c < 65536).
+    { destruct Hd as [Hd|[(_ & -> & _)|(_ & -> & _)]]; [|lia|lia]. cbn [In] in Hd.
+      repeat (destruct Hd as [Hd|Hd]; [injection Hd as _ <-; lia|]). contradiction. }
+    rewrite utf16_char_small by assumption. cbn [length]. lia.
+  - rewrite utf16_char_small by assumption. cbn [length]. lia.
+  - rewrite utf16_char_small by assumption. unfold u4. cbn [length]. lia.
+  - rewrite utf16_char_astral by lia. rewrite app_length. unfold u4. cbn [length]. lia.
+Qed.
+
+Lemma unescape_string_esc b (n : name) : below_max n = true ->
+  forall f, (length (esc_str b n) < f)%nat -> unescape_string f (esc_str b n) = Some (utf16 n).
+Proof.
+  unfold below_max, esc_str. induction n as [|c n IH]; cbn [forallb flat_map]; intros Hn f Hf.
   - destruct f; [lia|reflexivity].
-  - apply andb_true_iff in Hn as [Hc Hn]. destruct f as [|f]; [lia|].
-    rewrite unescape_string_id_char by lia. rewrite IH; [reflexivity|exact Hn|].
-    rewrite app_length in Hf. pose proof (esc_str_char_nonempty b c). lia.
+  - apply andb_true_iff in Hn as [Hc Hn]. rewrite app_length in Hf.
+    pose proof (esc_str_char_length b c ltac:(lia)) as Hlen.
+    replace f with (length (utf16_char c) + (f - length (utf16_char c)))%nat by lia.
+    rewrite unescape_string_id_char by lia. rewrite IH; [reflexivity|exact Hn|lia].
 Qed.
 
-Lemma esc_str_char_small b c : c < 65536 -> forallb (fun x => x <? 65536) (esc_str_char b c) = true.
+Lemma u4_small v : forallb (fun x => x <? 65536) (u4 v) = true.
 Proof.
-  intro Hc. destruct (esc_out_spec b c Hc) as [d Hd|H1 H2 H3|H].
+  unfold u4. cbn [forallb]. change (92 <? 65536) with true. change (117 <? 65536) with true. cbn [andb].
+  apply forallb_forall. intros x Hx. pose proof (hex_fixed_up_range 4 v) as HF. rewrite Forall_forall in HF.
+  specialize (HF x Hx). lia.
+Qed.
+
+Lemma esc_str_char_small b c : c < 1114112 -> forallb (fun x => x <? 65536) (esc_str_char b c) = true.
+Proof.
+  intro Hc. destruct (esc_out_spec b c Hc) as [d Hd|H1 H2 H3|H|H].
   - destruct Hd as [Hd|[(-> & _)|(-> & _)]]; [|reflexivity|reflexivity].
     cbn [In] in Hd. repeat (destruct Hd as [Hd|Hd]; [injection Hd as <- _; reflexivity|]). contradiction.
   - cbn [forallb]. replace (c <? 65536) with true by lia. reflexivity.
-  - cbn [forallb]. change (92 <? 65536) with true. change (117 <? 65536) with true. cbn [andb].
-    apply forallb_forall. intros x Hx. pose proof (hex_fixed_up_range 4 c) as HF. rewrite Forall_forall in HF.
-    specialize (HF x Hx). lia.
+  - apply u4_small.
+  - rewrite forallb_app, !u4_small. reflexivity.
 Qed.
 
-Lemma esc_str_small b n : bmp n = true -> bmp (esc_str b n) = true.
+(** the emitted text is ASCII plus raw BMP characters: its UTF-16 form is itself *)
+Lemma esc_str_small b n : below_max n = true -> bmp (esc_str b n) = true.
 Proof.
-  unfold bmp, esc_str. induction n as [|c n IH]; cbn [forallb flat_map]; intro H; [reflexivity|].
+  unfold below_max, bmp, esc_str. induction n as [|c n IH]; cbn [forallb flat_map]; intro H; [reflexivity|].
   apply andb_true_iff in H as [Hc Hn]. rewrite forallb_app, esc_str_char_small, (IH Hn) by lia. reflexivity.
 Qed.
+
+(** [utf16] is injective on names of scalar values: equal Java Strings denote equal names *)
+Lemma utf16_inj (a : name) : forall b : name, scalar_name a = true -> scalar_name b = true -> utf16 a = utf16 b -> a = b.
+Proof.
+  unfold scalar_name. induction a as [|x a IH]; intros [|y b] Ha Hb E; try reflexivity.
+  - exfalso. unfold utf16 in E. cbn [flat_map] in E. unfold utf16_char in E. destruct (y <? 65536); discriminate.
+  - exfalso. unfold utf16 in E. cbn [flat_map] in E. unfold utf16_char in E. destruct (x <? 65536); discriminate.
+  - cbn [forallb] in Ha, Hb. apply andb_true_iff in Ha as [Hx Ha]. apply andb_true_iff in Hb as [Hy Hb].
+    unfold utf16 in E. cbn [flat_map] in E. fold (utf16 a) in E. fold (utf16 b) in E.
+    unfold is_scalar in Hx, Hy. unfold utf16_char in E.
+    destruct (x <? 65536) eqn:Ex; destruct (y <? 65536) eqn:Ey; cbn [app] in E.
+    + injection E as -> E. f_equal. apply IH; assumption.
+    + exfalso. pose proof (f_equal (hd 0) E) as E1. cbn [hd] in E1.
+      assert (H1 : y < 1114112) by lia. assert (H2 : 65536 <= y) by lia.
+      assert ((y - 65536) / 1024 < 1024) by (apply N.div_lt_upper_bound; lia). lia.
+    + exfalso. pose proof (f_equal (hd 0) E) as E1. cbn [hd] in E1.
+      assert (H1 : x < 1114112) by lia. assert (H2 : 65536 <= x) by lia.
+      assert ((x - 65536) / 1024 < 1024) by (apply N.div_lt_upper_bound; lia). lia.
+    + pose proof (f_equal (hd 0) E) as E1. pose proof (f_equal (fun l => hd 0 (tl l)) E) as E2.
+      pose proof (f_equal (fun l => tl (tl l)) E) as E3. cbn [hd tl] in E1, E2, E3.
+      assert (x = y).
+      { assert (H1 : 65536 <= x) by lia. assert (H2 : 65536 <= y) by lia.
+        pose proof (N.div_mod (x - 65536) 1024 ltac:(lia)) as Dx. pose proof (N.div_mod (y - 65536) 1024 ltac:(lia)) as Dy.
+        assert (Eq : (x - 65536) / 1024 = (y - 65536) / 1024) by lia.
+        assert (Er : (x - 65536) mod 1024 = (y - 65536) mod 1024) by lia.
+        rewrite Eq, Er in Dx. lia. }
+      subst y. f_equal. apply IH; assumption || exact E3.
+Qed.
+
+Lemma id_start_java js c : id_start c = true -> java_start js c = true.
+Proof. unfold id_start, java_start. intro H. destruct (c <? 128) eqn:E; lia. Qed.
+
+Lemma id_part_java jp c : id_part c = true -> java_part jp c = true.
+Proof. unfold id_part, id_start, java_part. intro H. destruct (c <? 128) eqn:E; lia. Qed.
+
+Lemma id_part_small c : id_part c = true -> c <? 65536 = true.
+Proof. unfold id_part, id_start. lia. Qed.
 
 Section IdLexer.
   Variable java_start_hi : N -> bool.
   Variable java_part_hi : N -> bool.
-  Variable uni_word : N -> bool.
   Notation java_start := (java_start java_start_hi).
   Notation java_part := (java_part java_part_hi).
   Notation lex_identifier := (lex_identifier java_start_hi java_part_hi).
-  Notation engine_reads_id := (engine_reads_id java_start_hi java_part_hi uni_word).
-  Notation id_engine_safe := (id_engine_safe java_part_hi uni_word).
+  Notation engine_reads_id := (engine_reads_id java_start_hi java_part_hi).
 
-  (** ** the proved part: engine-safe names printed by escape_id are read back exactly *)
-  Theorem engine_reads_id_safe (n : name) (D : N) (rest : name) :
-    id_engine_safe n = true -> java_part D = false -> engine_reads_id n D rest.
+  (** ** every name of code points below 0x110000 printed by escape_id is read back as its UTF-16 form *)
+  Theorem engine_reads_id_below_max (n : name) (D : N) (rest : name) :
+    below_max n = true -> java_part D = false -> engine_reads_id n D rest.
   Proof.
-    intros Hsafe HD. unfold IdModel.engine_reads_id, IdModel.id_engine_safe, IdModel.escape_id in *.
-    destruct (is_bare uni_word n) eqn:Hb.
-    - (* bare identifier *)
-      destruct n as [|c r]; [discriminate|]. cbn [Model.is_bare] in Hb. apply andb_true_iff in Hb as [Hc _].
-      cbn [tl] in Hsafe.
-      assert (Hc128 : c <? 65536 = true) by lia.
-      unfold utf16 at 1 2. cbn [flat_map]. fold (utf16 r). unfold utf16_char. rewrite Hc128. cbn [app].
-      unfold Lexer.lex_identifier, lex_backtick. destruct (c =? 96) eqn:E96; [lia|].
-      unfold lex_ident.
-      assert (Hs : java_start c = true) by (unfold Lexer.java_start; destruct (c <? 128) eqn:E; lia).
-      rewrite Hs. rewrite (span_app' java_part (utf16 r) (D :: rest) Hsafe HD). reflexivity.
+    intros Hsafe HD. unfold IdModel.engine_reads_id, IdModel.escape_id in *.
+    destruct (is_bare_ascii n) eqn:Hb.
+    - (* bare ASCII identifier *)
+      destruct n as [|c r]; [discriminate|]. cbn [is_bare_ascii] in Hb. apply andb_true_iff in Hb as [Hc Hr].
+      assert (Hsmall : forallb (fun x => x <? 65536) (c :: r) = true).
+      { cbn [forallb]. rewrite (id_part_small c) by (unfold id_part; rewrite Hc; reflexivity). cbn [andb].
+        apply forallb_forall. intros x Hx. apply id_part_small. rewrite forallb_forall in Hr. exact (Hr x Hx). }
+      rewrite (utf16_small (c :: r) Hsmall). cbn [app].
+      unfold Lexer.lex_identifier, lex_backtick. destruct (c =? 96) eqn:E96; [unfold id_start in Hc; lia|].
+      unfold lex_ident. rewrite (id_start_java java_start_hi c Hc).
+      assert (Hj : forallb java_part r = true).
+      { apply forallb_forall. intros x Hx. apply id_part_java. rewrite forallb_forall in Hr. exact (Hr x Hx). }
+      rewrite (span_app' java_part r (D :: rest) Hj HD). reflexivity.
     - (* back-ticked *)
       set (body := esc_str true n).
       assert (Hu : utf16 (96 :: body ++ [96]) = 96 :: body ++ [96]).
       { apply utf16_small. cbn [forallb]. rewrite forallb_app. subst body. fold (bmp (esc_str true n)).
         rewrite (esc_str_small true n Hsafe). reflexivity. }
-      rewrite Hu. rewrite (utf16_small n Hsafe).
+      rewrite Hu.
       unfold Lexer.lex_identifier, lex_backtick. cbn [app N.eqb Pos.eqb]. rewrite <- app_assoc. cbn [app].
       subst body. rewrite (quoted_raw_escaped_id n (D :: rest) Hsafe).
       rewrite (unescape_string_esc true n Hsafe) by lia. reflexivity.
   Qed.
 
-  (** string literals: every BMP string printed by escape_str (not back-ticked) between double quotes is read back *)
-  Theorem engine_reads_str_safe (s : name) (rest : name) : bmp s = true -> engine_reads_str s rest.
-  Proof.
-    intro Hs. unfold engine_reads_str, str_literal.
-    set (body := esc_str false s).
-    assert (Hu : utf16 (34 :: body ++ [34]) = 34 :: body ++ [34]).
-    { apply utf16_small. cbn [forallb]. rewrite forallb_app. subst body. fold (bmp (esc_str false s)).
-      rewrite (esc_str_small false s Hs). reflexivity. }
-    rewrite Hu. rewrite (utf16_small s Hs). unfold lex_string. cbn [app N.eqb Pos.eqb orb]. rewrite <- app_assoc. cbn [app].
-    subst body. rewrite (quoted_raw_escaped_str s rest Hs).
-    rewrite (unescape_string_esc false s Hs) by lia. reflexivity.
-  Qed.
+  Theorem engine_reads_id_all : engine_accepts_all_ids java_start_hi java_part_hi.
+  Proof. intros n D rest Hs HD. apply engine_reads_id_below_max; [apply scalar_below_max; exact Hs|exact HD]. Qed.
 
-  (** ** the refuted part *)
-  (** U+1F600 is written as backslash-u 1F600 (FIVE hex digits); unescapeString takes four of them and then the
-      character 0: the engine ACCEPTS the text and reads a DIFFERENT name, U+1F60 followed by "0" *)
-  Lemma engine_misreads_astral_id : lex_identifier (utf16 (escape_id uni_word [128512]) ++ [58]) = Some ([8032; 48], [58]).
+  (** ** what was wrong before the fixes (statements about the hand definitions of the previous source text) *)
+  (** U+1F600 was written as backslash-u 1F600 (FIVE hex digits); unescapeString takes four of them and then the
+      character 0: the engine ACCEPTED the text and read a DIFFERENT name, U+1F60 followed by "0" *)
+  Lemma unfixed_misreads_astral_id uw :
+    lex_identifier (utf16 (escape_id_unfixed uw [128512]) ++ [58]) = Some ([8032; 48], [58]).
   Proof. vm_compute. reflexivity. Qed.
 
-  Lemma engine_rejects_astral_id : ~ engine_reads_id [128512] 58 [].
-  Proof. unfold IdModel.engine_reads_id. rewrite engine_misreads_astral_id. vm_compute. discriminate. Qed.
-
-  Lemma engine_misreads_astral_str : lex_string (utf16 (str_literal [128512])) = Some ([8032; 48], []).
-  Proof. vm_compute. reflexivity. Qed.
-
-  (** a name Python's [_a-zA-Z]\w* accepts is sent bare; a² is not a Java identifier *)
-  Lemma engine_rejects_bare_superscript_id :
-    uni_word 178 = true -> java_part_hi 178 = false -> ~ engine_reads_id [97; 178] 58 [].
+  (** a name Python's [_a-zA-Z]\w* accepts was sent bare; a² is not a Java identifier *)
+  Lemma unfixed_rejects_bare_superscript_id uw :
+    uw 178 = true -> java_part_hi 178 = false ->
+    lex_identifier (utf16 (escape_id_unfixed uw [97; 178]) ++ [58]) <> Some (utf16 [97; 178], [58]).
   Proof.
-    intros Hw Hj. unfold IdModel.engine_reads_id, IdModel.escape_id.
-    assert (Hb : is_bare uni_word [97; 178] = true).
+    intros Hw Hj. unfold escape_id_unfixed.
+    assert (Hb : is_bare uw [97; 178] = true).
     { cbn [Model.is_bare forallb]. unfold Peg.is_word. cbn [N.ltb N.compare Pos.compare Pos.compare_cont].
       rewrite Hw. reflexivity. }
     rewrite Hb. unfold Lexer.lex_identifier. cbn.
     unfold Lexer.java_part. cbn [N.ltb N.compare Pos.compare Pos.compare_cont]. rewrite Hj. discriminate.
   Qed.
 End IdLexer.
+
+(** string literals: every string of code points below 0x110000 printed by escape_str (not back-ticked) between double
+    quotes is read back as its UTF-16 form *)
+Theorem engine_reads_str_below_max (s : name) (rest : name) : below_max s = true -> engine_reads_str s rest.
+Proof.
+  intro Hs. unfold engine_reads_str, str_literal.
+  set (body := esc_str false s).
+  assert (Hu : utf16 (34 :: body ++ [34]) = 34 :: body ++ [34]).
+  { apply utf16_small. cbn [forallb]. rewrite forallb_app. subst body. fold (bmp (esc_str false s)).
+    rewrite (esc_str_small false s Hs). reflexivity. }
+  rewrite Hu. unfold lex_string. cbn [app N.eqb Pos.eqb orb]. rewrite <- app_assoc. cbn [app].
+  subst body. rewrite (quoted_raw_escaped_str s rest Hs).
+  rewrite (unescape_string_esc false s Hs) by lia. reflexivity.
+Qed.
+
+Lemma unfixed_misreads_astral_str : lex_string (utf16 (str_literal_unfixed [128512])) = Some ([8032; 48], []).
+Proof. vm_compute. reflexivity. Qed.
